@@ -188,7 +188,10 @@ def alf_run(repo, method, attrs=None, extra_env=None, curated=True):
         return NoneT()
 
     def sig_np_load(S, e, args, kw, env):
-        nm = _name_in(e.args[0]) if e.args else None
+        a0 = e.args[0] if e.args else None
+        if isinstance(a0, ast.Name) and S.fi_stack:
+            a0 = S.fi_stack[-1].expand(a0)          # `p = out_path / 'x.npy'; np.load(p)`
+        nm = _name_in(a0) if a0 is not None else None
         if nm in PRIOR:
             return PRIOR[nm]
         return UNK
